@@ -53,6 +53,8 @@
 (*   R1 kanata is not idle while a repeating macro's key is held             *)
 (*   R2 a new round starts only if the key was still held when the round     *)
 (*      before ended                                                        *)
+(*   H1 a key of the macro that is also the output of a plain key (shared)   *)
+(*      is down at the OS at every step at which the macro holds it          *)
 (*  Everywhere:                                                             *)
 (*   S0 no event on a macro's key while no macro using it runs               *)
 (*   E1 when kanata is idle (two ticks, no input) no macro key / button is   *)
@@ -189,6 +191,7 @@ MonInit(p) ==
    nreg |-> 0,        \* macros started since the last idle point (capped at cap + 1)
    npc |-> 0,         \* cancel-on-press macros among them (capped at 2)
    down |-> {},       \* macro keys down at the OS
+   phys |-> {},       \* plain keys with a shared output that are physically down
    bdown |-> {},      \* mouse buttons of macros down at the OS
    bnew |-> {},       \* ... that went down on this tick
    bttl |-> 0,        \* ticks within which the buttons that are down have to come up again
@@ -268,6 +271,24 @@ KeyUp(m0, m, mi, late) ==
                    ELSE CancelAll(m1, 0 - 1, 0 - 1, "rc", FALSE)
      ELSE m1
 
+\* Shared keys: outputs of plain keys (p.shared) that are also keys of a macro.  The OS sees such a key down while
+\* either holder has it down, so the macro's own press / release of it may not show as an event: these steps are
+\* not matched (skipped), events on the key are not attributed; instead (H1) the key must be down at the OS at
+\* every later step of the macro at which the macro still holds it.
+Shared(m) == IF "shared" \in DOMAIN m.p THEN {m.p.shared[i].o : i \in DOMAIN m.p.shared} ELSE {}
+PhysShared(m) == IF "shared" \in DOMAIN m.p
+                 THEN {m.p.shared[i].o : i \in {j \in DOMAIN m.p.shared : m.p.shared[j].c \in m.phys}} ELSE {}
+IsSharedStep(m, s) == (s.t = "d" /\ s.k \in Shared(m)) \/ (s.t = "u" /\ s.ks \subseteq Shared(m))
+RECURSIVE SkipFrom(_, _, _)
+SkipFrom(m, mi, j) == IF j > m.x[mi].N THEN j
+                      ELSE IF IsSharedStep(m, m.x[mi].steps[j]) THEN SkipFrom(m, mi, j + 1) ELSE j
+Rem(m, a) == SkipFrom(m, a.mi, a.pos + 1)       \* > N: the round is complete
+RECURSIVE HeldSkip(_, _, _, _, _)
+HeldSkip(m, mi, held, j, to) ==
+  IF j >= to THEN held
+  ELSE LET s == m.x[mi].steps[j] IN
+       HeldSkip(m, mi, IF s.t = "d" THEN held \cup {s.k} ELSE IF s.t = "u" THEN held \ s.ks ELSE held, j + 1, to)
+
 \* a press may cancel the macros: a cancel-on-press macro is running (tracked, or outside the sharp zone),
 \* or one pass of such a macro is not over yet
 MayCancel(m) ==
@@ -283,6 +304,8 @@ MonIn(m, r) ==
         mi == MacIdx(p, r.c)
         \* every further input may delay a queued virtual-key release by a tick
         m0 == [m EXCEPT !.ql = @ + 1, !.gapIn = @ + 1,
+                        !.phys = IF "shared" \in DOMAIN p /\ \E i \in DOMAIN p.shared : p.shared[i].c = r.c
+                                 THEN (IF r.e = "d" THEN @ \cup {r.c} ELSE @ \ {r.c}) ELSE @,
                         !.bttl = IF m.bdown # {} THEN @ + 1 ELSE @,
                         !.acts = [i \in DOMAIN m.acts |->
                                     IF OnVk(p.macros[m.acts[i].mi]) /\ m.acts[i].rttl > 0
@@ -294,7 +317,7 @@ MonIn(m, r) ==
                 must == SharpQ(m) /\ m.npc = 1 /\ \E i \in DOMAIN m.acts :
                           LET a == m.acts[i] IN
                           /\ a.st = "live" /\ ~a.opt /\ p.macros[a.mi].pc /\ a.proc = 0 /\ a.rnd = 1
-                          /\ a.pos < m.x[a.mi].N /\ p.macros[a.mi].c # r.c
+                          /\ Rem(m, a) <= m.x[a.mi].N /\ p.macros[a.mi].c # r.c
                 m1 == IF must THEN CancelAll(m0, 0, 1, "pc", TRUE)
                       ELSE IF MayCancel(m) THEN CancelAll(m0, 0 - 1, 0 - 1, "pc?", TRUE) ELSE m0
                 vk == VkOp(p, r.c)
@@ -313,9 +336,11 @@ MonIn(m, r) ==
 
 \* ---- matching one OS event against the activations
 \* index of the step the activation would play next (0 = none); a finished round of a repeating macro wraps
-NextIdx(m, a) == LET N == m.x[a.mi].N IN
-                 IF a.pos < N THEN a.pos + 1
-                 ELSE IF m.p.macros[a.mi].rep /\ N > 0 THEN 1 ELSE 0
+NextIdx(m, a) == LET N == m.x[a.mi].N
+                     r == Rem(m, a)
+                     r1 == SkipFrom(m, a.mi, 1)
+                 IN IF r <= N THEN r
+                    ELSE IF m.p.macros[a.mi].rep /\ r1 <= N THEN r1 ELSE 0
 StepMatches(a, s, kind, arg) ==
   /\ s.t = kind
   /\ (kind = "d" => s.k = arg)
@@ -323,7 +348,7 @@ StepMatches(a, s, kind, arg) ==
   /\ (kind \in {"U", "bd"} => s.ch = arg)
 WouldStep(m, a, kind, arg) ==
   LET j == NextIdx(m, a) IN j # 0 /\ a.st # "done" /\ StepMatches(a, m.x[a.mi].steps[j], kind, arg)
-IsWrap(m, a) == a.pos >= m.x[a.mi].N
+IsWrap(m, a) == Rem(m, a) > m.x[a.mi].N
 \* why an otherwise matching step is not acceptable ("" = acceptable)
 StepObjection(m, a, kind, arg) ==
   LET s == m.x[a.mi].steps[NextIdx(m, a)] IN
@@ -346,13 +371,17 @@ ApplyStep(m, i, kind, arg) ==
   LET a == m.acts[i]
       N == m.x[a.mi].N
       wrap == IsWrap(m, a)
-      pos1 == IF wrap THEN 1 ELSE a.pos + 1
-      a1 == [a EXCEPT !.pos = pos1, !.stepped = TRUE, !.el = 0, !.rnd = IF wrap THEN 2 ELSE @,
-                      !.held = IF kind = "d" THEN @ \cup {arg} ELSE IF kind = "u" THEN @ \ {arg} ELSE @]
-      fin == pos1 = N
+      pos1 == NextIdx(m, a)
+      h0 == IF wrap THEN HeldSkip(m, a.mi, HeldSkip(m, a.mi, a.held, a.pos + 1, N + 1), 1, pos1)
+            ELSE HeldSkip(m, a.mi, a.held, a.pos + 1, pos1)
+      h1 == IF kind = "d" THEN h0 \cup {arg} ELSE IF kind = "u" THEN h0 \ {arg} ELSE h0
+      a1 == [a EXCEPT !.pos = pos1, !.stepped = TRUE, !.el = 0, !.rnd = IF wrap THEN 2 ELSE @, !.held = h1]
+      fin == SkipFrom(m, a.mi, pos1 + 1) > N
       \* a completed round owes its virtual-key taps
       m1 == [m EXCEPT !.vbal = IF fin THEN OMax(@ - m.x[a.mi].nv, 0 - 3) ELSE @]
-  IN [m1 EXCEPT !.acts[i] = IF fin /\ ~m.p.macros[a.mi].rep THEN [a1 EXCEPT !.st = "done"] ELSE a1]
+  IN IF \E h \in h1 \cap Shared(m) : h \notin m.down
+     THEN Fail(m, "C08 H1: a key the macro holds across this step is not down at the OS (released by another holder of the key)")
+     ELSE [m1 EXCEPT !.acts[i] = IF fin /\ ~m.p.macros[a.mi].rep THEN [a1 EXCEPT !.st = "done"] ELSE a1]
 
 MacroEvent(m, kind, arg) ==
   LET acts == m.acts
@@ -384,7 +413,9 @@ ScanOut(m, out) ==
   ELSE LET e == Head(out)
            rest == Tail(out)
        IN IF e[1] \in {"d", "u"}
-          THEN IF e[2] \in AllKeys(m)
+          THEN IF e[2] \in Shared(m) /\ e[2] \in AllKeys(m)
+               THEN ScanOut([m EXCEPT !.down = IF e[1] = "d" THEN @ \cup {e[2]} ELSE @ \ {e[2]}], rest)
+               ELSE IF e[2] \in AllKeys(m)
                THEN LET m1 == [m EXCEPT !.down = IF e[1] = "d" THEN @ \cup {e[2]} ELSE @ \ {e[2]}] IN
                     \* outputs are compared by their effect on the OS key state
                     IF (e[1] = "d") = (e[2] \in m.down) THEN ScanOut(m, rest)
@@ -417,23 +448,23 @@ MonTick(m, out, idle, cb) ==
                                     [m.acts[i] EXCEPT !.stepped = FALSE, !.el = OMin(@ + 1, cap)]]]
         m1 == ScanOut(m0, out)
         \* end of the tick, per activation
-        lateC2 == \E i \in DOMAIN m1.acts : m1.acts[i].ttlC = 1 /\ m1.acts[i].held # {}
+        lateC2 == \E i \in DOMAIN m1.acts : m1.acts[i].ttlC = 1 /\ m1.acts[i].held \ Shared(m) # {}
         EndAct(a) ==
           LET a1 == [a EXCEPT !.proc = Dec(@), !.ttlS = Dec(@), !.ttlC = Dec(@), !.rttl = Dec(@)] IN
           \* a repeating macro whose round ended and which can no longer restart is done
-          IF a1.st = "live" /\ p.macros[a.mi].rep /\ a.pos >= m.x[a.mi].N /\ ~a1.key /\ a1.rttl = 0
+          IF a1.st = "live" /\ p.macros[a.mi].rep /\ Rem(m, a) > m.x[a.mi].N /\ ~a1.key /\ a1.rttl = 0
           THEN [a1 EXCEPT !.st = "done"] ELSE a1
         Keep(a) == a.st # "done" /\ a.ttlC # 0
         acts2 == SelectSeq([i \in DOMAIN m1.acts |-> EndAct(m1.acts[i])], Keep)
         \* idle: nothing is queued and no macro runs
         s3 == idle /\ \E i \in DOMAIN m1.acts : LET a == m1.acts[i] IN
-                        a.st = "live" /\ a.proc <= 1 /\ a.pos < m.x[a.mi].N
+                        a.st = "live" /\ a.proc <= 1 /\ Rem(m, a) <= m.x[a.mi].N
                         /\ ~(a.opt /\ a.pos = 0 /\ a.rnd = 1)          \* beyond the capacity: may not have started
         r1 == idle /\ \E i \in DOMAIN m1.acts : LET a == m1.acts[i] IN
                         a.st = "live" /\ a.proc <= 1 /\ p.macros[a.mi].rep /\ a.key /\ ~a.opt
         acts3 == IF idle THEN SelectSeq(acts2, SharpCancelled) ELSE acts2
         settled == idle /\ m.lastIdle /\ m.gapIn = 0
-        stuck == m1.down # {} \/ m1.bdown # {}
+        stuck == m1.down \ PhysShared(m) # {} \/ m1.bdown # {}
         \* (kanata is not idle while a custom item of a macro is pending, so E1 alone would never judge this)
         e2 == m1.bdown # {} /\ m1.bttl = 0 /\ m1.bnew = {}
         m2 == IF m1.err # "" THEN m1
@@ -466,7 +497,7 @@ RECURSIVE MonSilent(_, _, _, _)
 MonSilent(m, n, idle, cb) ==
   IF n = 0 \/ m.err # "" THEN m
   ELSE IF m.acts = <<>> /\ m.ql = 0 /\ m.gapIn = 0 /\ m.lastIdle = idle /\ idle /\ m.trig = 0
-          /\ m.lastc = "none" /\ m.vbal = 0 /\ m.down = {} /\ m.bdown = {} /\ m.dused = {} /\ m.nreg = 0 /\ m.npc = 0
+          /\ m.lastc = "none" /\ m.vbal = 0 /\ m.down \ PhysShared(m) = {} /\ m.bdown = {} /\ m.dused = {} /\ m.nreg = 0 /\ m.npc = 0
   THEN m
   ELSE MonSilent(MonTick(m, <<>>, idle, cb), n - 1, idle, cb)
 =============================================================================
